@@ -247,6 +247,8 @@ def r_sibling(F, R, cat=None):
             R.saw(b)
             s = sigs[b.key]
             ok = s == major
+            if not ok and s[1] == major[1] and {x for x in s[0] if x[1] != "measure"} == {x for x in major[0] if x[1] != "measure"}:
+                ok = True  # the forms differ only in what they *measure* (a length looked up, or not): no effect differs
             R.check("R-SIBLING", b.label(), ok,
                     construct="same effect signature as the other canonical push forms of %s" % short(adt),
                     where=b.where(),
